@@ -210,7 +210,7 @@ def judge(case):
 
 @st.composite
 def cases(draw):
-  design = draw(rtl_gen.designs(uu=True, ff=draw(st.booleans())))
+  design = draw(rtl_gen.designs(uu=True, ff=draw(st.booleans()), index_chain=3))
   seq = draw(rtl_gen.input_seqs(design, ncycles=2))
   seeds = draw(st.lists(st.integers(0, 2 ** 20), min_size=3, max_size=3))
   ring = draw(st.sampled_from([0, 0, 0, 0, 2, 3, 4]))
